@@ -48,7 +48,12 @@ func c14Build(n int) ([]*c14Mod, *pbsubstreams.Modules) {
 		}
 		if withParams && sym.Choice("params", 2) == 1 {
 			m.params = true
-			pm.Inputs = append(pm.Inputs, &pbsubstreams.Module_Input{Input: &pbsubstreams.Module_Input_Params_{Params: &pbsubstreams.Module_Input_Params{Value: "p"}}})
+			// a params value is free text: it may be spelled like the name of a module
+			val := "p"
+			if i > 0 && sym.Choice("params-value", sym.Param("PVALS", 2)) == 1 {
+				val = c14Names[i-1]
+			}
+			pm.Inputs = append(pm.Inputs, &pbsubstreams.Module_Input{Input: &pbsubstreams.Module_Input_Params_{Params: &pbsubstreams.Module_Input_Params{Value: val}}})
 		}
 		if sym.Choice("source", 2) == 1 {
 			m.source = true
